@@ -17,7 +17,16 @@
                                                     pos of input i set to ht, ...).verify()
               C/<i>.<pos>.<ht>,...|-                the inputs rebuilt through Transaction.add_input(keys, signatures=
                                                     [DER || hash-type byte ...]) (bytes changed likewise), verify()
-   answer: observations joined by ' ':  S<code>   V<T|F>/<valid flags>/<matrix>
+              A/<obj>/<attr>/<variant>/<epochs>     ONE attribute (Python name; obj = t | i<j> | o<j>) of a deep copy of
+                                                    the object written: verify() of the copy and the consensus verdict
+                                                    on the bytes raw() of the copy returns;  epochs = the digest ids
+                                                    of the inputs if the write is seen by their digest
+              AW/<obj>/<attr>/<variant>/<epochs>    the same write on the live object (no observation)
+              AX                                    attributes of the object outside the frozen list
+   answer: observations joined by ' ':  S<code>   V<T|F>/<valid flags>/<matrix>   B<T|F>/<valid flags>/<T|F>   X-
+   thr <own|lib> <sh|wsh|shwsh> <m> <n> <sel>       one m-of-n input parsed from raw bytes whose serialized signature
+                                                    list is sel ('.'-separated: key position | f foreign | x corrupted)
+   answer: V<T|F>/<valid flag>/<matrix>/<sigs_required after parse>
    vin <keys as 0/1 matrix rows per signature ','-separated> <n keys> <m>   — lib_verify_input (then the loop before fix C02-2) on an explicit table *)
 module BZ = Z
 open C02_model
@@ -41,13 +50,59 @@ let input_of_tok t =
        nat_of_int (int_of_string m))
   | _ -> failwith "input"
 
+let kind_of_type = function
+  | "pkh" -> 0 | "pk" -> 1 | "sh" -> 2 | "wpkh" -> 3 | "shwpkh" -> 4 | "wsh" -> 5 | "shwsh" -> 6
+  | _ -> failwith "type"
+
+let kinds_of_inputs ins =
+  List.map (fun t -> match String.split_on_char '/' t with
+      | ty :: _ -> BZ.of_int (kind_of_type ty) | _ -> failwith "input") ins
+
+let nat_list s = List.map (fun x -> nat_of_int (int_of_string x)) (split '.' s)
+
+let variant_arg v =
+  match String.index_opt v ':' with
+  | Some i -> (String.sub v 0 i, String.sub v (i + 1) (String.length v - i - 1))
+  | None -> (v, "")
+
+(* the model's name for a Python attribute (anything not listed: an attribute nothing reads) *)
+let attr_of obj attr variant =
+  let (_vk, va) = variant_arg variant in
+  let idx () = nat_of_int (int_of_string (String.sub obj 1 (String.length obj - 1))) in
+  match obj.[0], attr with
+  | 't', "version" -> AVersion
+  | 't', "version_int" -> AVersionInt
+  | 't', "locktime" -> ALocktime
+  | 'i', "prev_txid" -> APrev (idx ())
+  | 'i', "output_n" -> AOutN (idx ())
+  | 'i', "output_n_int" -> AOutNInt (idx ())
+  | 'i', "sequence" -> ASeq (idx ())
+  | 'i', "value" -> AInValue (idx ())
+  | 'i', "hash_type" -> AHashType (idx (), z_of va)
+  | 'i', "sigs_required" -> ASigsRequired (idx (), z_of va)
+  | 'i', "keys" -> AKeys (idx (), nat_list va)
+  | 'i', "signatures" -> ASignatures (idx (), nat_list va)
+  | 'i', "redeemscript" -> ARedeem (idx ())
+  | 'i', "locking_script" -> ALocking (idx ())
+  | 'i', "unlocking_script" -> AUnlocking (idx ())
+  | 'i', "witnesses" -> AWitnesses (idx ())
+  | 'o', "value" -> AOutValue (idx ())
+  | 'o', "lock_script" -> AOutScript (idx ())
+  | _ -> AOther
+
+let n_outputs = nat_of_int 2
+
 let patch_of_tok t =
   match String.split_on_char '.' t with
   | [i; p; ht] -> ((nat_of_int (int_of_string i), nat_of_int (int_of_string p)), z_of ht)
   | _ -> failwith "patch"
 
-let op_of_tok t =
+let op_of_tok kinds t =
   match String.split_on_char '/' t with
+  | ["A"; obj; attr; variant; es] ->
+      OProbe (attr_of obj attr variant, n_outputs, List.map z_of (split ',' es), kinds)
+  | ["AW"; obj; attr; variant; es] -> OWrite (attr_of obj attr variant, n_outputs, List.map z_of (split ',' es))
+  | ["AX"] -> OUnknownAttrs
   | ["S"; tg; r; f; ks] ->
       OSign ((if tg = "*" then None else Some (nat_of_int (int_of_string tg))), r = "r", f = "f",
              List.map key_of_tok (split ',' ks))
@@ -77,13 +132,26 @@ let str_obs = function
       Some ("V" ^ (if b then "T" else "F") ^ "/"
             ^ String.concat "" (List.map (function Some true -> "T" | Some false -> "F" | None -> "N") vs)
             ^ "/" ^ str_matrix m)
+  | ObsBoth (b, vs, r) ->
+      Some ("B" ^ (if b then "T" else "F") ^ "/"
+            ^ String.concat "" (List.map (function Some true -> "T" | Some false -> "F" | None -> "N") vs)
+            ^ "/" ^ (if r then "T" else "F"))
+  | ObsAttrs -> Some "X-"
   | ObsNone -> None
 
 let dispatch = function
   | ["scn"; ins; ops] ->
-      let obs = run_scenario (List.map input_of_tok (split ';' ins)) (List.map op_of_tok (split ';' ops)) in
+      let kinds = kinds_of_inputs (split ';' ins) in
+      let obs = run_scenario (List.map input_of_tok (split ';' ins)) (List.map (op_of_tok kinds) (split ';' ops)) in
       let l = List.filter_map str_obs obs in
       if l = [] then "-" else String.concat " " l
+  | ["thr"; _src; kind; m; n; sel] ->
+      let sig_of = function
+        | "f" -> BZ.of_int (-1)
+        | s when String.length s > 0 && s.[0] = 'x' -> BZ.of_int (-2)
+        | s -> z_of s in
+      let ((sr, b), mat) = lib_thr_run (kind <> "sh") (z_of m) (nat_of_int (int_of_string n)) (List.map sig_of (split '.' sel)) in
+      "V" ^ (if b then "T" else "F") ^ "/" ^ (if b then "T" else "F") ^ "/" ^ str_matrix [mat] ^ "/" ^ str_z sr
   | ["vin"; rows; n; m] ->
       (* explicit table: signature i is row i, key j is column j *)
       let tab = Array.of_list (List.map (fun r -> r) (split ',' rows)) in
